@@ -6,6 +6,10 @@ Entry point: the property theorems live in
                           sequences of reads (no memo), iteration, generator prefixes, `in`/`index`/`count`/
                           `reversed`, reads through a mapped non-callable, histories with reads in between
   Props/C19Import.lean    the lists menpo builds itself: init_from_iterable and the glob importers
+  Props/C19Slice.lean     CPython slice arithmetic = the language reference's definition, for every start/stop/step
+  Props/C19Py.lean        the Core definitions the TRANSLATED LazyList methods are proved equal to (GenProps/C19Src.lean):
+                          CPython primitives ([x]*n, zip(*), chain(*)), links to the program / read / dispatch models
+  Props/C19PyIO.lean      the same for the translated importer functions (loop shapes, l[:m])
   Props/C19Dispatch.lean  argument dispatch of __getitem__ / map / __add__ (tables regenerated from the live code,
                           obligations in GenProps/C19.lean)
 -/
@@ -13,3 +17,6 @@ import MenpoModel.Props.C19Base
 import MenpoModel.Props.C19Reads
 import MenpoModel.Props.C19Import
 import MenpoModel.Props.C19Dispatch
+import MenpoModel.Props.C19Slice
+import MenpoModel.Props.C19Py
+import MenpoModel.Props.C19PyIO
